@@ -286,7 +286,7 @@ func genC07(r *rand.Rand, rg *c07Rig, id string, thorough bool) *c07Req {
 		case "x-forwarded-host":
 			val = "evil.example"
 		case "forwarded":
-			val = choose(r, []string{"for=6.6.6.6; proto=https", "for=6.6.6.6"})
+			val = choose(r, []string{"for=6.6.6.6; proto=https", "for=6.6.6.6", "for=6.6.6.6; proto=", "for=a;proto=https, for=b", "for=a; proto=\"https\"", "for=a; httpproto=http/1.1", "for=a;PROTO=https"})
 		case "x-tls", "x-forwarded-prefix", "x-ssl", "x-forwarded-ssl":
 			val = choose(r, []string{"on", "true", "fake"})
 		default:
@@ -777,8 +777,10 @@ func c07One(c *ctx, which string, rg *c07Rig, q *c07Req, unrouted *atomic.Int64)
 			}
 		} else if g := got.Get("X-Forwarded-Proto"); len(g) != 1 || g[0] != proto {
 			// a client-supplied Forwarded header with a proto is documented to take precedence
-			if f := q.sent("Forwarded"); !(len(f) > 0 && strings.Contains(f[0], "proto=")) {
-				viol("c08", "xfp-wrong", fmt.Sprintf("X-Forwarded-Proto is %q on a %s connection", g, proto))
+			// a client-supplied Forwarded header with a proto is documented to take precedence: the value must then be that
+			// proto (a clean token), and the connection's scheme in every other case
+			if fp := c08ForwardedProto(q.sent("Forwarded")); !(fp != "" && len(g) == 1 && strings.EqualFold(g[0], fp)) {
+				viol("c08", "xfp-wrong", fmt.Sprintf("X-Forwarded-Proto is %q on a %s connection (client sent Forwarded %q)", g, proto, q.sent("Forwarded")))
 			}
 		}
 		hostOnly, hostPort := q.HostHdr, ""
@@ -1032,4 +1034,23 @@ func c20Scheme(q *c07Req) string {
 		return "https"
 	}
 	return "http"
+}
+
+// c08ForwardedProto: the proto parameter of a client-sent Forwarded header (RFC 7239: comma separated elements of
+// semicolon separated name=value pairs, names case-insensitive, values possibly quoted); "" when there is none.
+func c08ForwardedProto(lines []string) string {
+	for _, fwd := range lines {
+		for _, el := range strings.Split(fwd, ",") {
+			for _, pair := range strings.Split(el, ";") {
+				k, v, ok := strings.Cut(pair, "=")
+				if ok && strings.EqualFold(strings.TrimSpace(k), "proto") {
+					if v = strings.Trim(strings.TrimSpace(v), `"`); v != "" {
+						return v
+					}
+				}
+			}
+		}
+		break // only the first line counts
+	}
+	return ""
 }
